@@ -125,8 +125,13 @@ def run(scn: Dict[str, Any]) -> UdpRun:
         out.running_samples = 0
         out.running_but_not_listening = []
 
+        in_stop = [False]
+
         def sample_invariant():
-            # sampled at every loop iteration, also while start()/stop() are in progress
+            # sampled at every loop iteration, also while start() is in progress (a stop() in progress may clear
+            # the flag a cycle after it closed the sockets: "released as soon as the event loop has cycled")
+            if in_stop[0]:
+                return
             out.running_samples += 1
             for bidx, b in enumerate(bridges):
                 if b.is_running:
@@ -199,6 +204,7 @@ def run(scn: Dict[str, Any]) -> UdpRun:
             sim.rec("action", kind, bidx, "invoke")
             sim.mark("user%d" % bidx, kind)
             sim.current_owner = ("bridge", bidx)
+            in_stop[0] = kind in ("stop", "aexit")
             try:
                 if kind == "start":
                     await b.start()
@@ -221,6 +227,7 @@ def run(scn: Dict[str, Any]) -> UdpRun:
                 act["outcome"] = ("exc", type(e).__name__, str(e)[:120], [c.__name__ for c in type(e).__mro__])
             finally:
                 sim.current_owner = None
+                in_stop[0] = False
             act["seq1"] = sim.seq
             act["mono1"] = sim.mono_us
             act["callbacks_at_return"] = len(out.callbacks)
